@@ -22,20 +22,30 @@ Shapes ==
      for |-> {<<"body">>, <<"body", "orelse">>},
      with |-> {<<"body">>},
      withsupp |-> {<<"body">>},
+     \* compound statements that bind a variable (Frame.v): `if (v := cond()):`, `for v in it():`, `with cm() as v:`
+     ifw |-> {<<"body">>, <<"body", "orelse">>},
+     forv |-> {<<"body">>, <<"body", "orelse">>},
+     withas |-> {<<"body">>},
+     withsuppas |-> {<<"body">>},
+     \* `match subj():` -- one or two cases; part names: cap / seq / wild, a trailing g = guarded; an unguarded
+     \* irrefutable case (cap, wild) must be the last one (SyntaxError otherwise)
+     match |-> {<<c>> : c \in {"cap", "capg", "seq", "seqg", "wild"}}
+               \cup {<<c, d>> : c \in {"capg", "seq", "seqg"}, d \in {"cap", "capg", "seq", "seqg", "wild"}},
      try |-> {<<"body", "h">>, <<"body", "h", "h">>, <<"body", "h", "orelse">>, <<"body", "final">>,
               <<"body", "h", "final">>, <<"body", "h", "orelse", "final">>}]
 
 VARIABLES stack, nid, done
 gvars == <<stack, nid, done>>
 
-Frame(kind, shape, id) == [kind |-> kind, shape |-> shape, id |-> id, parts |-> << >>, cur |-> << >>]
+Frame(kind, shape, id) == [kind |-> kind, shape |-> shape, id |-> id, parts |-> << >>, cur |-> << >>, v |-> ""]
 Root == Frame("root", <<"body">>, 0)
+VarKinds == {"ifw", "forv", "withas", "withsuppas", "match"}
 
 GInit == stack = <<Root>> /\ nid = 1 /\ done = FALSE
 
 Top == stack[Len(stack)]
 PartName(f) == f.shape[Len(f.parts) + 1]
-InLoopBody == \E i \in 1..Len(stack) : stack[i].kind \in {"while", "whiletrue", "for"} /\ Len(stack[i].parts) = 0
+InLoopBody == \E i \in 1..Len(stack) : stack[i].kind \in {"while", "whiletrue", "for", "forv"} /\ Len(stack[i].parts) = 0
 
 Push(s) == stack' = [stack EXCEPT ![Len(stack)].cur = Append(@, s)]
 \* no dead code: nothing may follow return / raise / break / continue in the same block (pyanalyze
@@ -52,6 +62,10 @@ AddSimple ==
     /\ \E s \in ({[k |-> "assign", v |-> w, id |-> nid] : w \in GenVars} \cup {[k |-> "use", v |-> w, id |-> nid] : w \in GenVars}
                  \cup {[k |-> "defg", v |-> w, id |-> nid] : w \in GenVars} \cup {[k |-> "defn", v |-> w, id |-> nid] : w \in GenVars}
                  \cup {[k |-> "callg", t |-> d.id, v |-> d.v, w |-> d.k = "defn", id |-> nid] : d \in VisibleDefs}
+                 \cup {[k |-> kk, v |-> w, id |-> nid] : kk \in {"aug", "import", "cuse", "citer", "cbind", "cwal"}, w \in GenVars}
+                 \* `except Exception as v:` -- a pseudo-statement that can only open a handler block
+                 \cup (IF Len(stack) > 1 /\ Top.cur = << >> /\ PartName(Top) = "h"
+                       THEN {[k |-> "exas", v |-> w, id |-> nid] : w \in GenVars} ELSE {})
                  \cup {[k |-> "return", id |-> nid], [k |-> "raise", id |-> nid], [k |-> "call", id |-> nid]}
                  \cup (IF InLoopBody THEN {[k |-> "break", id |-> nid], [k |-> "continue", id |-> nid]} ELSE {})) :
          /\ s.k \in SimpleKinds
@@ -63,7 +77,8 @@ Open ==
     /\ \E kind \in Kinds : \E shape \in Shapes[kind] :
          /\ (Shape = "loop" /\ Len(stack) = 1) => (kind \in {"for", "while", "whiletrue"} /\ Top.cur = << >> /\ shape = <<"body">>)
          /\ (Shape = "loop" /\ Len(stack) > 1) => kind \notin {"for", "while", "whiletrue"}
-         /\ stack' = Append(stack, Frame(kind, shape, nid))
+         /\ \E w \in (IF kind \in VarKinds THEN GenVars ELSE {""}) :
+                stack' = Append(stack, [Frame(kind, shape, nid) EXCEPT !.v = w])
     /\ nid' = nid + 1 /\ UNCHANGED done
 
 \* finish the current block of the top frame and start its next block (blocks other than `orelse`
@@ -90,6 +105,17 @@ MakeStmt(f, parts) ==
          [] f.kind = "for" -> [k |-> "for", id |-> f.id, body |-> body, orelse |-> orelse]
          [] f.kind = "with" -> [k |-> "with", id |-> f.id, supp |-> FALSE, body |-> body]
          [] f.kind = "withsupp" -> [k |-> "with", id |-> f.id, supp |-> TRUE, body |-> body]
+         [] f.kind = "ifw" -> [k |-> "ifw", id |-> f.id, v |-> f.v, body |-> body, orelse |-> orelse]
+         [] f.kind = "forv" -> [k |-> "forv", id |-> f.id, v |-> f.v, body |-> body, orelse |-> orelse]
+         [] f.kind = "withas" -> [k |-> "withas", id |-> f.id, v |-> f.v, supp |-> FALSE, body |-> body]
+         [] f.kind = "withsuppas" -> [k |-> "withas", id |-> f.id, v |-> f.v, supp |-> TRUE, body |-> body]
+         \* (the captures get ids of their own, outside the range of statement ids)
+         [] f.kind = "match" -> [k |-> "match", id |-> f.id, v |-> f.v,
+                                 cases |-> [i \in 1..Len(f.shape) |->
+                                              [pat |-> IF f.shape[i] \in {"cap", "capg"} THEN "cap"
+                                                       ELSE IF f.shape[i] \in {"seq", "seqg"} THEN "seq" ELSE "wild",
+                                               guard |-> f.shape[i] \in {"capg", "seqg"},
+                                               id |-> 100 + 10 * f.id + i, body |-> parts[i]]]]
          [] f.kind = "try" -> [k |-> "try", id |-> f.id, body |-> body, handlers |-> Blocks(f.shape, parts, "h"),
                                orelse |-> orelse, final |-> FirstOr(Blocks(f.shape, parts, "final"))]
 
@@ -107,10 +133,11 @@ HasVar(block, kind, v) ==
     \E i \in 1..Len(block) :
         LET s == block[i]
         IN \/ s.k = kind /\ s.v = v
-           \/ s.k \in {"if", "while", "for"} /\ (HasVar(s.body, kind, v) \/ HasVar(s.orelse, kind, v))
-           \/ s.k = "with" /\ HasVar(s.body, kind, v)
+           \/ s.k \in IfKinds \cup LoopKinds /\ (HasVar(s.body, kind, v) \/ HasVar(s.orelse, kind, v))
+           \/ s.k \in WithKinds /\ HasVar(s.body, kind, v)
            \/ s.k = "try" /\ (HasVar(s.body, kind, v) \/ HasVar(s.orelse, kind, v) \/ HasVar(s.final, kind, v)
                               \/ \E j \in 1..Len(s.handlers) : HasVar(s.handlers[j], kind, v))
+           \/ s.k = "match" /\ \E j \in 1..Len(s.cases) : HasVar(s.cases[j].body, kind, v)
 
 Finish ==
     /\ ~done /\ Len(stack) = 1 /\ Top.cur # << >>
@@ -129,12 +156,12 @@ RECURSIVE UsesOf(_)
 UsesOf(block) ==
     IF block = << >> THEN {}
     ELSE LET s == Head(block)
-             here == CASE s.k \in {"use", "defg"} -> {s.id}
-                       [] s.k \in {"if", "for"} -> UsesOf(s.body) \cup UsesOf(s.orelse)
-                       [] s.k = "while" -> UsesOf(s.body) \cup UsesOf(s.orelse)
-                       [] s.k = "with" -> UsesOf(s.body)
+             here == CASE s.k \in {"use", "defg", "aug", "cuse", "citer"} -> {s.id}
+                       [] s.k \in IfKinds \cup LoopKinds -> UsesOf(s.body) \cup UsesOf(s.orelse)
+                       [] s.k \in WithKinds -> UsesOf(s.body)
                        [] s.k = "try" -> UsesOf(s.body) \cup UsesOf(s.orelse) \cup UsesOf(s.final)
                                          \cup UNION {UsesOf(s.handlers[i]) : i \in 1..Len(s.handlers)}
+                       [] s.k = "match" -> UNION {UsesOf(s.cases[i].body) : i \in 1..Len(s.cases)}
                        [] OTHER -> {}
          IN here \cup UsesOf(Tail(block))
 
@@ -154,28 +181,71 @@ RECURSIVE SuppressRevisited(_, _)
 SuppressRevisited(block, twice) ==
     \E i \in 1..Len(block) :
         LET s == block[i]
-        IN \/ twice /\ (s.k = "try" \/ (s.k = "with" /\ s.supp))
-           \/ s.k = "if" /\ (SuppressRevisited(s.body, twice) \/ SuppressRevisited(s.orelse, twice))
-           \/ s.k \in {"while", "for"} /\ (SuppressRevisited(s.body, TRUE) \/ SuppressRevisited(s.orelse, twice))
-           \/ s.k = "with" /\ SuppressRevisited(s.body, twice)
+        IN \/ twice /\ (s.k = "try" \/ (s.k \in WithKinds /\ s.supp))
+           \/ s.k \in IfKinds /\ (SuppressRevisited(s.body, twice) \/ SuppressRevisited(s.orelse, twice))
+           \/ s.k \in LoopKinds /\ (SuppressRevisited(s.body, TRUE) \/ SuppressRevisited(s.orelse, twice))
+           \/ s.k \in WithKinds /\ SuppressRevisited(s.body, twice)
            \/ s.k = "try" /\ (SuppressRevisited(s.body, twice) \/ SuppressRevisited(s.orelse, twice)
                               \/ SuppressRevisited(s.final, TRUE)
                               \/ \E j \in 1..Len(s.handlers) : SuppressRevisited(s.handlers[j], twice))
+           \/ s.k = "match" /\ \E j \in 1..Len(s.cases) : SuppressRevisited(s.cases[j].body, twice)
+
+\* bindings whose definition node is a Name in Store context (the only ones the unused-variable check can report)
+NameDefKinds == {"assign", "aug", "ifw", "withas", "forv", "cwal"}
+RECURSIVE IdsOfKind(_, _)
+IdsOfKind(block, kinds) ==
+    UNION {LET s == block[i]
+           IN (IF s.k \in kinds THEN {s.id} ELSE {}) \cup
+              (CASE s.k \in IfKinds \cup LoopKinds -> IdsOfKind(s.body, kinds) \cup IdsOfKind(s.orelse, kinds)
+                 [] s.k \in WithKinds -> IdsOfKind(s.body, kinds)
+                 [] s.k = "try" -> IdsOfKind(s.body, kinds) \cup IdsOfKind(s.orelse, kinds) \cup IdsOfKind(s.final, kinds)
+                                   \cup UNION {IdsOfKind(s.handlers[j], kinds) : j \in 1..Len(s.handlers)}
+                 [] s.k = "match" -> UNION {IdsOfKind(s.cases[j].body, kinds) : j \in 1..Len(s.cases)}
+                 [] OTHER -> {})
+           : i \in 1..Len(block)}
+
+RECURSIVE GuardedCapture(_)
+GuardedCapture(block) ==
+    \E i \in 1..Len(block) :
+        LET s == block[i]
+        IN \/ s.k = "match" /\ \E j \in 1..Len(s.cases) : (s.cases[j].guard /\ s.cases[j].pat \in {"cap", "seq"})
+                                                             \/ GuardedCapture(s.cases[j].body)
+           \/ s.k \in IfKinds \cup LoopKinds /\ (GuardedCapture(s.body) \/ GuardedCapture(s.orelse))
+           \/ s.k \in WithKinds /\ GuardedCapture(s.body)
+           \/ s.k = "try" /\ (GuardedCapture(s.body) \/ GuardedCapture(s.orelse) \/ GuardedCapture(s.final)
+                              \/ \E j \in 1..Len(s.handlers) : GuardedCapture(s.handlers[j]))
+
+\* a break / continue that leaves a try statement whose finally clause binds a variable or leaves itself
+RECURSIVE JumpThroughFinally(_, _)
+JumpThroughFinally(block, under) ==
+    \E i \in 1..Len(block) :
+        LET s == block[i]
+        IN \/ under /\ s.k \in {"break", "continue"}
+           \/ s.k \in IfKinds /\ (JumpThroughFinally(s.body, under) \/ JumpThroughFinally(s.orelse, under))
+           \* (a break inside a nested loop leaves that loop only)
+           \/ s.k \in LoopKinds /\ (JumpThroughFinally(s.body, FALSE) \/ JumpThroughFinally(s.orelse, under))
+           \/ s.k \in WithKinds /\ JumpThroughFinally(s.body, under)
+           \/ s.k = "match" /\ \E j \in 1..Len(s.cases) : JumpThroughFinally(s.cases[j].body, under)
+           \/ s.k = "try" /\ LET u == under \/ HasKind(s.final, NameDefKinds \cup {"import", "return", "raise", "break", "continue"})
+                              IN \/ JumpThroughFinally(s.body, u) \/ JumpThroughFinally(s.orelse, u)
+                                 \/ \E j \in 1..Len(s.handlers) : JumpThroughFinally(s.handlers[j], u)
+                                 \/ JumpThroughFinally(s.final, under)
 
 RECURSIVE AnyStmt(_, _)
 AnyStmt(block, kind) ==       \* does the program contain a statement with the given feature?
     \E i \in 1..Len(block) :
         LET s == block[i]
-            here == CASE kind = "loopelse" -> s.k \in {"while", "for"} /\ s.orelse # << >>
+            here == CASE kind = "loopelse" -> s.k \in LoopKinds /\ s.orelse # << >>
                       [] kind = "whiletrue" -> s.k = "while" /\ s.true
-                      [] kind = "bodyleaves" -> s.k \in {"while", "for"} /\ s.body # << >>
+                      [] kind = "bodyleaves" -> s.k \in LoopKinds /\ s.body # << >>
                                                 /\ s.body[Len(s.body)].k \in {"break", "return", "raise"}
                       [] kind = "break" -> s.k = "break"
         IN \/ here
-           \/ s.k \in {"if", "while", "for"} /\ (AnyStmt(s.body, kind) \/ AnyStmt(s.orelse, kind))
-           \/ s.k = "with" /\ AnyStmt(s.body, kind)
+           \/ s.k \in IfKinds \cup LoopKinds /\ (AnyStmt(s.body, kind) \/ AnyStmt(s.orelse, kind))
+           \/ s.k \in WithKinds /\ AnyStmt(s.body, kind)
            \/ s.k = "try" /\ (AnyStmt(s.body, kind) \/ AnyStmt(s.orelse, kind) \/ AnyStmt(s.final, kind)
                               \/ \E j \in 1..Len(s.handlers) : AnyStmt(s.handlers[j], kind))
+           \/ s.k = "match" /\ \E j \in 1..Len(s.cases) : AnyStmt(s.cases[j].body, kind)
 
 \* verdict at one use: "ok", a known deviation class, or "viol"
 UseVerdict2(prog, rs, rl, u, reported) ==
@@ -198,6 +268,9 @@ UseVerdict2(prog, rs, rl, u, reported) ==
        \* (c') the second visit of a loop body starts from the state AFTER the loop, which includes the states at the
        \*      break statements: an assignment that is always followed by a break is considered able to reach the body
        ELSE IF AnyStmt(prog, "break") /\ missing = {} THEN "dev:loop-second-visit-starts-from-break-state"
+       \* (j) break / continue inside a try statement with a finally clause: the scope recorded for the loop exit is the
+       \*     state AT the break: what the finally clause does on the way out (bindings, return / raise) is not applied
+       ELSE IF JumpThroughFinally(prog, FALSE) THEN "dev:loop-exit-through-finally-ignores-finally-clause"
        \* (d) suppressing_subscope finds the assignments of its block by comparing name_to_all_definition_nodes before
        \*     and after; when the block is visited a second time (finally clause, loop body) the nodes are already
        \*     there, so the assignments made inside a try body / suppressing with are dropped after the block
@@ -208,6 +281,20 @@ UseVerdict2(prog, rs, rl, u, reported) ==
        \* (f) a use inside a nested function sees the definitions current where the nested function is DEFINED (plus
        \*     whatever was current there at the end of the collecting phase), not those current at its calls
        ELSE IF HasKind(prog, {"defg"}) THEN "dev:closure-use-sees-definition-site-state"
+       \* (k) a capture made by a case whose guard then fails is set in that case's subscope only: the later cases and the
+       \*     code after the match statement do not see it (and the guarded case is taken to leave the name unbound)
+       ELSE IF GuardedCapture(prog) THEN "dev:match-capture-dropped-when-guard-fails"
+       \* (g) `except E as v:` binds v with the handler as definition node and never unbinds it: after the try statement
+       \*     the handler's binding is considered live although CPython has deleted the name on every way out
+       ELSE IF HasKind(prog, {"exas"}) /\ missing \subseteq {0} /\ extra \subseteq IdsOfKind(prog, {"exas"})
+            THEN "dev:except-name-outlives-handler"
+       \* (h) a walrus inside a comprehension is recorded as an unconditional assignment of the enclosing function,
+       \*     although the comprehension may iterate zero times
+       ELSE IF HasKind(prog, {"cwal"}) /\ extra = {} THEN "dev:comprehension-walrus-assumed-executed"
+       \* (i) a read from a comprehension / lambda / class body is looked up in the enclosing FunctionScope once more
+       \*     while the function is CHECKED, when name_to_current_definition_nodes still holds what the end of the
+       \*     collecting visit left there: assignments that only follow the read are considered able to reach it
+       ELSE IF HasKind(prog, {"cuse"}) /\ missing \subseteq {0} THEN "dev:inner-scope-read-sees-end-of-collection-state"
        ELSE "viol"
 
 UseVerdict(prog, u, reported) == UseVerdict2(prog, Reaching(prog, "strict"), Reaching(prog, "liberal"), u, reported)
@@ -223,6 +310,59 @@ C09_HoldsStrict(prog) ==
         rl == Reaching(prog, "liberal")
         us == ImplUsage(prog)
     IN \A u \in UsesOf(prog) : UseOK2(rs, rl, u, ReportedFrom(us, u))
+(***************************************************************************)
+(* Second observable on usage_to_definition_nodes: unused_variable /       *)
+(* unused_assignment (_check_function_unused_vars).  A binding that        *)
+(* reaches a use along some STRICT path must not be reported (the message  *)
+(* tells the user to delete a live assignment); a binding that reaches no  *)
+(* use in the LIBERAL graph may be reported (not reporting it is recorded  *)
+(* as information only).                                                   *)
+(***************************************************************************)
+\* bindings whose definition node is a Name in Store context (the only ones the check can report): <<id, variable>>
+RECURSIVE NameDefs(_)
+NameDefs(block) ==
+    UNION {LET s == block[i]
+           IN (IF s.k \in NameDefKinds THEN {<<s.id, s.v>>} ELSE {}) \cup
+              (CASE s.k \in IfKinds \cup LoopKinds -> NameDefs(s.body) \cup NameDefs(s.orelse)
+                 [] s.k \in WithKinds -> NameDefs(s.body)
+                 [] s.k = "try" -> NameDefs(s.body) \cup NameDefs(s.orelse) \cup NameDefs(s.final)
+                                   \cup UNION {NameDefs(s.handlers[j]) : j \in 1..Len(s.handlers)}
+                 [] s.k = "match" -> UNION {NameDefs(s.cases[j].body) : j \in 1..Len(s.cases)}
+                 [] OTHER -> {})
+           : i \in 1..Len(block)}
+UsedIn(pairs, d) == \E p \in pairs : p[1] > 0 /\ p[2] = d
+\* verdict for one binding, given whether it was reported as unused
+DefVerdict2(prog, rs, rl, d, reportedUnused) ==
+    IF ~reportedUnused
+    THEN (IF UsedIn(rl, d) \/ d \notin LiveDefs(rl) THEN "ok" ELSE "info")
+    ELSE IF ~UsedIn(rs, d) THEN "ok"
+    \* a live binding reported as unused: the known deviations that LOSE definitions at uses have this consequence
+    ELSE IF AnyStmt(prog, "loopelse") THEN "dev:loop-else"
+    ELSE IF JumpThroughFinally(prog, FALSE) THEN "dev:loop-exit-through-finally-ignores-finally-clause"
+    ELSE IF SuppressRevisited(prog, FALSE) THEN "dev:suppressing-block-revisited-loses-assignments"
+    ELSE IF HasKind(prog, {"defn"}) THEN "dev:nonlocal-assignment-recorded-at-definition"
+    ELSE IF HasKind(prog, {"defg"}) THEN "dev:closure-use-sees-definition-site-state"
+    ELSE IF HasKind(prog, {"cwal"}) THEN "dev:comprehension-walrus-assumed-executed"
+    ELSE "viol"
+Unused_Holds(prog) ==
+    LET rs == Reaching(prog, "strict")
+        rl == Reaching(prog, "liberal")
+        F == ImplFinal(prog)
+    IN \A dv \in NameDefs(prog) : DefVerdict2(prog, rs, rl, dv[1], ImplReportedUnused(prog, F, dv[1], dv[2])) # "viol"
+Unused_HoldsStrict(prog) ==
+    LET rs == Reaching(prog, "strict")
+        F == ImplFinal(prog)
+    IN \A dv \in NameDefs(prog) : ~(ImplReportedUnused(prog, F, dv[1], dv[2]) /\ UsedIn(rs, dv[1]))
+\* both observables with the oracle and the model computed once
+All_Holds(prog) ==
+    LET rs == Reaching(prog, "strict")
+        rl == Reaching(prog, "liberal")
+        F == ImplFinal(prog)
+    IN /\ \A u \in UsesOf(prog) : UseVerdict2(prog, rs, rl, u, ReportedFrom(F.usage, u)) # "viol"
+       /\ \A dv \in NameDefs(prog) : DefVerdict2(prog, rs, rl, dv[1], ImplReportedUnused(prog, F, dv[1], dv[2])) # "viol"
+InvAll == done => All_Holds(Prog)
+InvUnused == done => Unused_Holds(Prog)
+InvUnusedStrict == done => Unused_HoldsStrict(Prog)
 InvC09 == done => C09_Holds(Prog)
 InvC09Strict == done => C09_HoldsStrict(Prog)
 =============================================================================
